@@ -12,11 +12,13 @@ CLAIMS = {
                  "any other deviating case is a violation with the case as replay; a sample is re-recorded with /usr/bin/vim on every run to check the recording. "
                  "Kernel-checked only for VimSpec, the documented single-line fragment {h l 0 $ x X with counts}: the normal-mode cursor invariant for every key "
                  "string, motions never change the text, what [n]x / [n]X remove, and [n+1]x = x;[n]x exactly when enough characters remain (with the end-of-line "
-                 "counter-example); VimSpec itself is compared with the recorded Vim on every case of its fragment.",
+                 "counter-example); and conformance of the vicut model with VimSpec on that fragment: for every one-line buffer, cursor and count the C08 "
+                 "motion/operator model (tied to the real eval_motion/exec_verb by the correspondence check) computes VimSpec's result for [n]h and [n]l and leaves "
+                 "VimSpec's text for [n]x and [n]X. VimSpec itself is compared with the recorded Vim on every case of its fragment.",
         "note": NOTE_COMMON + " This property is conformance to an external program over a finite recorded corpus: outside the VimSpec fragment the replay is a differential "
-                "test, not a proof, and is labelled as such. 31% of the corpus deviates at the baseline (line-end and final-newline handling); one root cause ($ / A / D / C "
-                "on non-last lines) was repaired, the rest is recorded.",
-        "technique": "recorded-oracle differential replay (Vim 9 corpus) + Lean 4 proof for the VimSpec fragment, itself validated against the corpus",
+                "test, not a proof, and is labelled as such. 33% of the corpus deviated at the pinned commit (70 717 cases: line-end and final-newline handling, whole-line "
+                "commands, put, word/sentence/paragraph objects and motions); the root causes were repaired in 27 fix commits and 5% (11 193 cases) is left, recorded by corpus id.",
+        "technique": "recorded-oracle differential replay (Vim 9 corpus) + Lean 4 proofs: laws of the VimSpec fragment and conformance of the vicut model with it; VimSpec validated against the corpus",
     },
     "C10": {
         "level": "Kernel-checked for the modelled functions: reading a field never panics for any cursors, selection and text; drain accepts every range; delete, "
